@@ -29,7 +29,8 @@ Inductive sstep :=
 | SWaitConnect
 | SState
 | SWriteFail (k : N)
-| SNewClient.
+| SNewClient
+| SPeerRest.                             (* peer_send with skip: the peer writes the rest of the frame it sent cut before *)
 
 Inductive obs :=
 | ObOk | ObBlocked | ObNone | ObBad
@@ -259,6 +260,19 @@ Definition exec (sc : sconfig) (m : mstate) (st : sstep) : mstate * obs :=
   | SNewClient =>
       (mkM (m_st m) (m_events m) (m_peerq m) (m_peer_closed m) (m_seen m) (m_fail m) (m_failed m) true (m_fuel_out m), ObOk)
   | SPeerSend p => peer_put sc p m
+  | SPeerRest =>
+      (* the cut frame the client is (or will be) in the middle of becomes whole *)
+      match m_peerq m with
+      | p :: r =>
+          match pf_cut p with
+          | Some _ =>
+              if m_peer_closed m then (m, ObBad) else
+              let m1 := settle sc settle_fuel (set_peerq (mkPFrame (pf_frame p) None :: r) m) in
+              (m1, ObPeer (Nat.eqb (unwritten m1) 0) (f_id (pf_frame p)))
+          | None => (m, ObBad)
+          end
+      | [] => (m, ObBad)
+      end
   | SReply to f =>
       match nth_error (m_seen m) to with
       | Some o => peer_put sc (mkPFrame (mkFrame (f_ver f) (f_typ f) (f_id (o_frame o)) (f_len f) (f_tag f) (f_info f)) None) m
